@@ -1,6 +1,7 @@
 (* Extraction of the executable models to OCaml: ExtrOcamlBasic only (bool, option, unit, list, prod,
    sumbool, sumor mapped to OCaml's own; every number stays the extracted inductive type). *)
-From Coq Require Import Extraction ExtrOcamlBasic.
-From RS Require Import Order.MsgOrderDefs Part.PartitionDefs Rng.RngDefs.
+From Coq Require Import Extraction ExtrOcamlBasic NArith ZArith.
+From RS Require Import Order.MsgOrderDefs Part.PartitionDefs Rng.RngDefs Topo.TopoDefs.
 Extraction "model.ml" before before_ext q_before content node_init thread_init owner first
-  rng_init random_u64 random_bits random_bits_unsplit floor_mul random_range random_range_nonuniform.
+  rng_init random_u64 random_bits random_bits_unsplit floor_mul random_range random_range_nonuniform
+  get_receiver is_neighbor count_directions add_link N.mul.
